@@ -121,9 +121,15 @@ OPS = [
 ]
 
 
+FIELD_VALUES = ("", "Edit", "7", "dance-single", "0,1", "a\nb")
+
+
 def check_case(case):
     if case["kind"] == "value":
         return check_value(case["context"], case["value"])[0]
+    if case["kind"] == "fields":
+        model = {"type": "sm", "items": [("TITLE", "t")], "charts": [{"fields": list(case["fields"]), "extra": case["extra"]}]}
+        return H.check_roundtrip(model, X.build_object(model))[0]
     if case["kind"] == "scale":
         label, model = X.scale_models("sm", case.get("thorough", False))[case["index"]]
         return H.check_roundtrip(model, X.build_object(model))[0]
@@ -211,6 +217,31 @@ def explore_shard(acc, shard):
                 acc.violation(f["clause"], case, str(f["expected"])[:300], str(f["observed"])[:300], signature=("scale", f["clause"]))
         if case:
             acc.sample(layer, case)
+    elif kind == "F":
+        # SM chart fields holding values that would be at home in another field (difficulty names, numbers,
+        # step types, radar lists, nothing), with and without extra components
+        _, first = shard
+        layer = "F chart fields holding each other's kinds of value"
+        case = None
+        for rest in itertools.product(FIELD_VALUES, repeat=5):
+            fields = [first] + list(rest)
+            for extra in (None, [""], ["x"], ["0000"]):
+                model = {"type": "sm", "items": [("TITLE", "t")], "charts": [{"fields": fields, "extra": extra}]}
+                case = {"kind": "fields", "fields": fields, "extra": extra}
+                core.guard_cheap(acc, case)
+                fails, status = H.check_roundtrip(model, X.build_object(model))
+                acc.count("evaluations")
+                acc.count("states")
+                acc.count("transitions")
+                acc.count("nontrivial")
+                if status == "ok":
+                    acc.count("roundtrips_checked")
+                    acc.outcome("chart fields permuted")
+                else:
+                    acc.count(status.split(":")[0])
+                for f in fails:
+                    acc.violation(f["clause"], case, f["expected"], f["observed"], signature=("fields", f["clause"]))
+        acc.sample(layer, case)
     elif kind == "W":
         _, init_name = shard
         model, mk = initial_states()[init_name]
@@ -257,6 +288,8 @@ def explore(run):
             shards.append(("W", name))  # one long history per small initial state
     for part in range(8):
         shards.append(("S", part, 8, run.thorough()))
+    for v in FIELD_VALUES:
+        shards.append(("F", v))
     k = run.seed % len(shards)
     shards = shards[k:] + shards[:k]
     run.merge(core.pmap(explore_shard, shards, run.seed))
@@ -276,11 +309,13 @@ def explore(run):
         "Cases in msdparser's escaping gaps are detected operationally, must match a listed pattern, and are counted. Non-trivial = has a chart, a None or a metacharacter."
         + " W: from every small initial state one uninterrupted history on one live object in which every ordered pair of operations (incl. serialize) occurs consecutively (order-2 de Bruijn sequence, about 2000 steps), compared with the model after every step, round trip every 16 steps."
         + " S: scale simfiles - one-line lists of 7..700 entries, each of : // \\ ; at every offset in a window before 4096 and 8192 (thorough 16384, 65536) in the first property, the note data and a description, 17 / 130 / 1100 charts, 400 properties."
+        + " F: one SM chart with every assignment of 6 values (empty, a difficulty name, a number, a step type, a radar list, two lines) to its six fields x 4 extra-component lists."
     )
     run.assumptions = [
         "msdparser is the trusted tokenizer/escaper; its escaping gaps are excluded operationally and reported as known findings",
         "mc/models/msd.py states the parameter list the repository must emit",
     ]
+    core.require(acc.outcomes["chart fields permuted"] > 0, "no permuted chart fields")
     core.require(acc.outcomes["scale simfile"] > 0, "no scale simfile")
     core.require(acc.outcomes["long walk on one live object"] > 0, "no long walk")
     core.require(acc.c["roundtrips_checked"] > 1000, "too few round trips")
